@@ -55,8 +55,9 @@ class Calls:
                 if acc is None:
                     acc, res = e, r
                 else:
+                    old_ = acc
                     acc = self.join_env(acc, e)
-                    res = self.join(res, r, acc)
+                    res = self.join_sided(res, old_, r, e, acc)
             if acc is None:
                 env.dead = True
                 return TOP
@@ -153,7 +154,8 @@ class Calls:
                 if isinstance(v, Str):
                     g = tuple(c for c in v.cells() if not isinstance(c, frozenset))
                     if g:
-                        e.facts = e.facts | {('gen',) + g}
+                        argc = tuple(c for a_ in args if isinstance(a_, Str) for c in a_.cells())
+                        e.facts = e.facts | {('gen',) + g, ('gen2', fn.mod, fn.name, g, argc)}
         if multi:
             for e, v in outs:
                 e.frames = e.frames[:-1]
@@ -164,8 +166,9 @@ class Calls:
             return TOP
         acc, val = outs[0]
         for e, v in outs[1:]:
+            old_ = acc
             acc = self.join_env(acc, e)
-            val = self.join(val, v, acc)
+            val = self.join_sided(val, old_, v, e, acc)
         depth = len(env.frames) - 1 if env.frames and env.frames[-1] is frame else len(env.frames)
         env.store = acc.store
         env.facts = acc.facts
@@ -624,7 +627,7 @@ class Calls:
         if not isinstance(subject, Str):
             self.ctx.raise_('TypeError', node, env, 'regex on %r' % (subject,))
             return MatchV(lang, self.ctx.S.any_str(env))
-        return MatchV(lang, subject, None, True) if lang is not None else MatchV(None, subject)
+        return MatchV(lang.anchored(how), subject, None, True) if lang is not None else MatchV(None, subject)
 
     def match_group(self, m, args, env, node):
         S = self.ctx.S
@@ -649,9 +652,11 @@ class Calls:
         x, y = span
         if all(it.fixed() for it in items[:y]) and all(it.lo == 1 for it in items[:y]):
             return S.slice(env, s, x, y)
-        if all(it.fixed() and it.lo == 1 for it in items[x:]):
-            n = len(items)
-            b = -(n - y) if y < n else None
+        if all(it.fixed() and it.lo == 1 for it in items[x:]) and m.lang.anch_end is not None:
+            # counted from the end of the subject: only when the pattern is anchored there (a `$` may leave one line feed behind it)
+            n = len(items) + (1 if m.nl else 0)
+            y2 = y + 0
+            b = -(n - y2) if y2 < n else None
             return S.slice(env, s, -(n - x), b)
         # fresh string from the group's own items
         cells = []
